@@ -34,6 +34,7 @@ func verifCanary(label string, cond bool) {}
 //@   ensures [C05:content] err == nil ==> forall i int :: { at(result0, i) } off(result0) <= i && i < off(result0) + len(result0) ==>
 //@           at(result0, i) == io.streamAt(ref(c), pos + (i - off(result0)))
 //@   ensures [C05:advance] err == nil ==> io.streamPos(c) == pos + len(result0)
+//@   ensures [C13:capacity] err == nil ==> cap(result0) >= 8192
 //@   ensures [C05:error-nothing] err != nil ==> len(result0) == 0
 //@   ensures [C20:fresh] err == nil ==> fresh(result0)
 //@   canary ensures [C05:canary-advance-8] err == nil ==> io.streamPos(c) == pos + 8
